@@ -33,6 +33,7 @@ RULE += (' Also: a lock type whose instances share one non-re-entrant lock; opaq
 RULE += (' Also: property values that happen to be awaitable.')
 RULE += (' Also: frozen hosts (__setattr__ raises).')
 RULE += (' Also: probe locks offer locked().')
+RULE += (" Also: deletion by replacing the instance's __dict__.")
 ASSUMPTIONS = ["awaiting a handle taken while a value was cached returns that value (unspecified after del; accepted)",
                "the getter's own suspensions are the only scheduling points besides lock waits"]
 EXHAUSTIVE_SUBSPACES = 'all operation sequences of length <= 5 (thorough: 6) over 7 operations; DFS-complete schedule sets for the scenarios counted in scenarios_explored_exhaustively'
@@ -69,6 +70,7 @@ def cases(tier, seed, shard, nshards):
                "repeat": rng.choice([1, 1, 2]) if mode != "dfs" else 1,
                "susp": susp, "fail": sorted(rng.sample(range(1, 5), rng.choice([0, 0, 1, 2]))),
                "deleter": rng.choice([None, None, 0, 1, 2, 3]) if mode != "dfs" else rng.choice([None, None, 0, 1]),
+               "deleter_how": rng.choice(["del", "del", "swap"]),
                "cancel_task": rng.randrange(nt) if rng.random() < 0.4 else None,
                "lock_susp": rng.choice([[0, 0], [0, 0], [1, 0], [0, 1]]),
                "runs": DFS_LIMIT[tier] if mode == "dfs" else RANDOM_RUNS[tier], "seed": rng.randrange(1 << 30),
@@ -325,6 +327,14 @@ def execute(case, choose, cancel_at=None):
     async def deleter(k):
         if k:
             await Suspend("deleter", k)
+        if case.get("deleter_how") == "swap":
+            # the whole attribute dictionary is REPLACED (a reset(): ``self.__dict__ = {}``): every cached attribute is
+            # gone - a deletion like any other, also for placeholders handed out before
+            had = "p" in vars(inst)
+            object.__setattr__(inst, "__dict__", {})
+            if had:
+                dels.append(tick())
+            return
         try:
             del inst.p
             dels.append(tick())
